@@ -10,7 +10,7 @@ TRANSPARENT = set(IDENTITY_CALLS) | {
     'core::slice::<impl [T]>::iter', 'std::iter::IntoIterator::into_iter', 'std::clone::Clone::clone',
     'std::string::String::as_str', 'std::borrow::ToOwned::to_owned', 'std::string::ToString::to_string',
     'std::vec::Vec::<T, A>::as_slice', 'core::str::<impl str>::as_bytes', 'std::string::String::as_bytes',
-    'std::iter::Iterator::by_ref', 'std::ops::Try::branch', 'std::borrow::Cow::<\'_, B>::as_ref',
+    'std::iter::Iterator::by_ref', 'std::ops::Try::branch', 'std::future::Future::poll', 'std::boxed::Box::<T>::pin', 'std::borrow::Cow::<\'_, B>::as_ref',
 }
 
 
